@@ -33,7 +33,11 @@ type fence struct {
 	commands []string
 	nofields bool
 	count    bool
-	role     string // main | filter | other-near | other-far | other-key
+	role     string // main | filter | other-near | other-far | other-key | redefined | fresh
+	roam     bool   // NEARBY key FENCE ROAM key zz-none 1: a hook without an area (Fence.obj == nil)
+	ex       string // EX seconds ("" = none)
+	twin     string // redefined: name of the channel defined once with the same final definition
+	history  string // redefined: the definition it replaced
 }
 
 type obj struct {
@@ -97,6 +101,9 @@ func (f *fence) detects(k string) bool {
 }
 
 func (f *fence) areaRectOrd() string {
+	if f.roam {
+		return "-"
+	}
 	a, b, c, d := verifapi.FenceAreaRect(f.area)
 	return ord(a) + "," + ord(b) + "," + ord(c) + "," + ord(d)
 }
@@ -122,6 +129,10 @@ func (f *fence) args() []string {
 	if f.count {
 		a = append(a, "COUNT")
 	}
+	if f.roam {
+		// no object of the collection has the id zz-none: the roam arm itself never finds a neighbour
+		return append(a, "ROAM", f.key, "zz-none", "1")
+	}
 	if f.area.Kind == "circle" {
 		if f.cmd == "nearby" {
 			a = append(a, "POINT", ff(f.area.Lat), ff(f.area.Lon), ff(f.area.Meters))
@@ -137,7 +148,7 @@ func (f *fence) args() []string {
 func (f *fence) describe() string { return f.sink + ":" + f.name + " " + strings.Join(f.args(), " ") }
 
 func (f *fence) sp(o *obj) bool {
-	if o == nil || o.str {
+	if o == nil || o.str || f.roam {
 		return false
 	}
 	return verifapi.FenceHitObj(f.cmd, f.area, o.spec())
@@ -512,6 +523,7 @@ func (e *env) round(n, nOther int) {
 	}
 	// registry churn: replace, re-issue unchanged, delete and pattern-delete some of the other hooks
 	e.churn(st)
+	e.redefine(st, n, mainCmd)
 	st.sub.Collect()
 
 	// ---- the script: every movement kind on a few objects, then random moves ----
@@ -564,7 +576,11 @@ func (e *env) install(st *roundState, f *fence, equalPrev bool) {
 	st.byName[f.name] = f
 	switch f.sink {
 	case "chan":
-		v := st.c.MustDo(append([]string{"SETCHAN", f.name}, f.args()...)...)
+		pre := []string{"SETCHAN", f.name}
+		if f.ex != "" {
+			pre = append(pre, "EX", f.ex)
+		}
+		v := st.c.MustDo(append(pre, f.args()...)...)
 		if v.IsErr() {
 			panic("SETCHAN refused: " + v.String() + " " + f.describe())
 		}
@@ -581,7 +597,7 @@ func (e *env) install(st *roundState, f *fence, equalPrev bool) {
 		st.lives[f.name] = l
 		return
 	}
-	e.drv.Ask("reg_set", model.H(f.name), model.B(f.sink == "chan"), model.H(f.key), f.dbits(), f.areaRectOrd(), "0", model.B(equalPrev))
+	e.drv.Ask("reg_set", model.H(f.name), model.B(f.sink == "chan"), model.H(f.key), f.dbits(), f.areaRectOrd(), model.B(f.ex != ""), model.B(equalPrev))
 }
 
 func (e *env) churn(st *roundState) {
@@ -627,6 +643,122 @@ func (e *env) churn(st *roundState) {
 			}
 		}
 	}
+}
+
+// redefinition of existing names: every ordered pair (A -> B) of the eight definition classes
+// {explicit cross / not} x {detects outside / not} x {has an area / roaming, i.e. no area}, plus
+// redefinitions that change the key or the expiry; next to each redefined channel a twin that is
+// defined once with the final definition. A redefined fence must behave exactly like a fresh one.
+func (e *env) redefine(st *roundState, n int, mainCmd string) {
+	rng := e.rng
+	type class struct{ cross, outside, area bool }
+	var classes []class
+	for _, c := range []bool{true, false} {
+		for _, o := range []bool{true, false} {
+			for _, a := range []bool{true, false} {
+				classes = append(classes, class{c, o, a})
+			}
+		}
+	}
+	lat0, lon0 := st.center()
+	mk := func(name string, c class, shifted bool) *fence {
+		f := &fence{name: name, sink: "chan", key: st.key, cmd: mainCmd, area: st.main, roam: !c.area}
+		var d []string
+		if c.cross {
+			d = append(d, "cross")
+		}
+		if c.outside {
+			d = append(d, "outside")
+		}
+		// fill up with kinds that do not change the class; "no cross, no outside" needs at least one kind
+		for _, k := range []string{"inside", "enter", "exit"} {
+			if rng.Intn(2) == 0 || (len(d) == 0 && k == "exit") {
+				d = append(d, k)
+			}
+		}
+		if c.outside && !c.cross && c.area && rng.Intn(3) == 0 {
+			d = nil // default detection: wants outside, and is NOT in the cross index
+		}
+		f.detect = d
+		if f.roam {
+			f.cmd = "nearby"
+		} else if shifted {
+			// an area next to the main one (other rectangle in the spatial indexes)
+			sz := st.size
+			f.cmd = "intersects"
+			f.area = verifapi.FenceArea{Kind: "bounds", MinLat: lat0 + 0.5*sz, MinLon: lon0 - 0.5*sz, MaxLat: lat0 + 2*sz, MaxLon: lon0 + sz}
+		}
+		return f
+	}
+	type pair struct{ a, b class }
+	var pairs []pair
+	for _, a := range classes {
+		for _, b := range classes {
+			pairs = append(pairs, pair{a, b})
+		}
+	}
+	if n%3 != 0 {
+		// all 64 pairs in the rounds without other hooks, a sample elsewhere
+		rng.Shuffle(len(pairs), func(i, j int) { pairs[i], pairs[j] = pairs[j], pairs[i] })
+		pairs = pairs[:12]
+	}
+	for i, pr := range pairs {
+		name := fmt.Sprintf("%s-rd%02d", st.key, i)
+		first := mk(name, pr.a, false)
+		variant := ""
+		switch rng.Intn(6) {
+		case 0:
+			first.key = st.key + "-x" // the redefinition moves the fence to this key
+			variant = " other-key"
+		case 1:
+			first.ex = "1000" // the redefinition drops the expiry
+			variant = " EX"
+		}
+		first.role = "redefined"
+		e.install(st, first, false)
+		final := mk(name, pr.b, rng.Intn(3) == 0)
+		if rng.Intn(8) == 0 {
+			final.ex = "1000"
+		}
+		final.role = "redefined"
+		final.history = strings.Join(first.args(), " ") + variant
+		final.twin = fmt.Sprintf("%s-rf%02d", st.key, i)
+		e.install(st, final, false)
+		st.fences = append(st.fences, final)
+		tw := *final
+		tw.name, tw.role, tw.twin, tw.history = final.twin, "fresh", "", ""
+		e.install(st, &tw, false)
+		st.fences = append(st.fences, &tw)
+	}
+}
+
+// what a roaming fence whose pattern matches no object emits (fenceMatch, roam arm): nothing for a
+// set; a bare detect:"roam" message for any other object-carrying command when there is no DETECT
+// clause; del / drop like every fence
+func roamTokens(f *fence, w write, c acase) []string {
+	if !f.accepts(c.cmd) {
+		return nil
+	}
+	switch c.cmd {
+	case "drop":
+		return []string{"drop"}
+	}
+	if !c.glob || w.o.str {
+		return nil
+	}
+	switch c.cmd {
+	case "del":
+		return []string{"del"}
+	case "set":
+		return nil
+	}
+	if c.cmd == "fset" && f.nofields {
+		return nil
+	}
+	if f.detect == nil {
+		return []string{"roam"}
+	}
+	return nil
 }
 
 func (e *env) remove(st *roundState, name string) {
@@ -963,15 +1095,23 @@ func (e *env) check(st *roundState, w write, msgs []fencex.Msg, live map[string]
 	}
 	r.Dist("write:" + w.label)
 	seen := map[string]bool{}
+	tokensOf := map[string]string{}
 	for _, f := range st.fences {
 		seen[f.name] = true
 		c := abstract(f, w)
 		pure := toks(e.fm(c.req)) // fence_match, not gated
+		if f.roam {
+			pure = roamTokens(f, w, c)
+			c.guardOK = false
+		}
 		var want []string
 		if f.sink == "live" || (cands[f.name] && f.key == st.key) {
 			want = pure
 		}
 		cs := map[string]interface{}{"round": st.label, "fence": f.describe(), "role": f.role, "write": w.label + " " + describeWrite(st.key, w), "transition": transition(c)}
+		if f.history != "" {
+			cs["redefined_from"] = f.history
+		}
 		var got []fencex.Msg
 		switch f.sink {
 		case "chan":
@@ -1000,6 +1140,7 @@ func (e *env) check(st *roundState, w write, msgs []fencex.Msg, live map[string]
 				r.Sample(8, map[string]interface{}{"case": cs, "observed": gt})
 			}
 		}
+		tokensOf[f.name] = strings.Join(gt, ",")
 		// (b) correspondence with the model
 		if strings.Join(gt, ",") != strings.Join(want, ",") {
 			sig := "fence-model"
@@ -1009,8 +1150,12 @@ func (e *env) check(st *roundState, w write, msgs []fencex.Msg, live map[string]
 			r.Fail(hx.Failure{Kind: "correspondence", Signature: sig,
 				What: "messages of a fence differ from Model.Fence.fence_match gated by Model.HookReg.candidates", Case: cs, Impl: gt, Model: want})
 		}
-		// (a) direct oracle
-		switch c.cmd {
+		// (a) direct oracle (a roaming fence has no area: nothing of the static rule applies to it)
+		oc := c.cmd
+		if f.roam {
+			oc = ""
+		}
+		switch oc {
 		case "set", "fset":
 			var doc []string
 			if c.guardOK {
@@ -1070,6 +1215,28 @@ func (e *env) check(st *roundState, w write, msgs []fencex.Msg, live map[string]
 			}
 			if bad != "" {
 				r.Fail(hx.Failure{Kind: "oracle", Signature: "fence-fields", What: "fence message does not carry the current " + bad, Case: cs, Impl: m.Raw})
+			}
+		}
+	}
+	// a redefined fence behaves exactly like one defined once with the same final definition, and
+	// never emits a detect kind outside its current DETECT set
+	for _, f := range st.fences {
+		if f.twin == "" {
+			continue
+		}
+		got, fresh := tokensOf[f.name], tokensOf[f.twin]
+		cs := map[string]interface{}{"round": st.label, "fence": f.describe(), "redefined_from": f.history, "write": w.label + " " + describeWrite(st.key, w)}
+		r.Count("redefined|"+f.dbits()+"|"+w.label, got != "")
+		if got != fresh {
+			r.Fail(hx.Failure{Kind: "oracle", Signature: "fence-redefined-differs",
+				What: fmt.Sprintf("a channel redefined under the same name emitted [%s]; its twin, defined once with the same final definition, emitted [%s]", got, fresh), Case: cs, Impl: got})
+		}
+		for _, t := range strings.Split(got, ",") {
+			for _, k := range kinds {
+				if t == k && !f.detects(k) {
+					r.Fail(hx.Failure{Kind: "oracle", Signature: "fence-detect-not-requested",
+						What: fmt.Sprintf("fence with DETECT %v emitted %q", f.detect, t), Case: cs, Impl: got})
+				}
 			}
 		}
 	}
